@@ -20,6 +20,18 @@ def install(E, names):
         elif n == 'nut10-none':
             # every secret is a plain (non NUT-10) secret
             I[M + 'cashu/nuts/nut10.DeserializeSecret'] = lambda e, a: (e.zero(M + 'cashu/nuts/nut10.WellKnownSecret'), mkerr('invalid NUT-10 secret'))
+        elif n == 'loadmint-env':
+            # LoadMint's file-system prologue: directory creation and logger set-up are no-ops, InitSQLite hands out the model
+            # database of that path (created with the parsed schema on first use) - DESIGN.md C09
+            I[M + 'mint.setupLogger'] = lambda e, a: (None, None)
+            I['os.MkdirAll'] = lambda e, a: None
+            def init_sqlite(e, a):
+                path = a[0].c
+                dbs = e.P.g.setdefault('sqlite_by_path', {})
+                if path not in dbs:
+                    dbs[path] = e.intr['github.com/elnosh/gonuts/verifrt.SqlDB'](e, [a[0]])
+                return (Ptr(Box(StructV([dbs[path]]))), None)
+            I[M + 'mint/storage/sqlite.InitSQLite'] = init_sqlite
         elif n == 'nut10':
             from . import nut10; nut10.install(E)
         else:
